@@ -64,13 +64,21 @@ func hasFold(m map[string]any, key string) bool {
 
 // RunC13Corrupt starts a store on corrupt, truncated, malformed or arbitrary
 // cache contents with a healthy service: it must never panic or fail.
-func RunC13Corrupt(s *kernel.Sim) *World {
-	w := NewWorld(s, "C13")
+func RunC13Corrupt(s *kernel.Sim) *World { return RunCorrupt(s, "C13") }
+
+// RunCorrupt is the corrupt-cache scenario on behalf of prop (C13: no panic,
+// no failed start; C12: a handle never panics, whatever the cache held).
+func RunCorrupt(s *kernel.Sim, prop string) *World {
+	w := NewWorld(s, prop)
 	defer w.Finish()
+	if prop != "C13" {
+		w.OnlyKinds = map[string]bool{"corrupt-panic": true, "corrupt-value": true}
+	}
 	t := w.T
 	s.SetFree(false)
 	declared := w.DrawNames(t.Range(1, 3))
 	extra := "extra/undeclared"
+	ghost := "ghost/unheard-of"
 	for _, n := range append(append([]string{}, declared...), extra) {
 		w.Svc.Create(n)
 		w.Svc.Bump(n)
@@ -94,8 +102,14 @@ func RunC13Corrupt(s *kernel.Sim) *World {
 		doc = []string{"null", "[]", "17", `"x"`, "true", "{}", "", " ", "nul", "\x00"}[t.Choice(10)]
 		kind = "top-level"
 	case 3:
-		// an entry (or its secret) null / missing / wrong type
-		n := declared[t.Choice(len(declared))]
+		// an entry (or its secret) null / missing / wrong type: of a declared
+		// name, of an undeclared one, or of a name nobody has heard of
+		cands := append([]string{}, declared...)
+		if _, ok := ent[extra]; ok {
+			cands = append(cands, extra, extra)
+		}
+		cands = append(cands, ghost)
+		n := cands[t.Choice(len(cands))]
 		var m map[string]any
 		json.Unmarshal([]byte(canon), &m)
 		switch t.Choice(6) {
@@ -226,6 +240,52 @@ func RunC13Corrupt(s *kernel.Sim) *World {
 		w.S.Probe("canonical-used")
 	default:
 		w.S.Probe("in-between")
+	}
+	// undeclared names the document mentioned: whatever handle the store is
+	// willing to hand out must work, and so must the next poll
+	s.SetFree(true)
+	w.Svc.NoPark = true
+	for _, n := range []string{extra, ghost} {
+		var h setec.Secret
+		func() {
+			defer func() {
+				if r := recover(); r != nil && cfg.AllowLookup {
+					w.Fail("corrupt-panic", "after start on %s cache (%s), obtaining a handle for %q panicked: %v", class, kind, n, r)
+				}
+			}()
+			if cfg.AllowLookup {
+				h, _ = st.LookupSecret(context_bg(), n)
+			} else {
+				h = st.Secret(n) // panics for a name the store does not know
+			}
+		}()
+		if h == nil {
+			continue
+		}
+		func() {
+			defer func() {
+				if r := recover(); r != nil {
+					w.Fail("corrupt-panic", "after start on %s cache (%s: %q) the store handed out a handle for %q, and calling it panicked: %v", class, kind, trunc([]byte(doc)), n, r)
+				}
+			}()
+			got := h.Get()
+			_, sb := w.Svc.Active(n)
+			if !bytes.Equal(got, sb) && !bytes.Equal(got, w.Svc.valueFor(n, 1)) && class != "in-between" {
+				w.Fail("corrupt-value", "undeclared secret %q serves %q after start on %s cache (%s), neither the cached nor a served value", n, trunc(got), class, kind)
+			}
+			w.S.Probe("corrupt-undeclared-handle")
+		}()
+	}
+	func() {
+		defer func() {
+			if r := recover(); r != nil {
+				w.Fail("corrupt-panic", "after start on %s cache (%s: %q) a poll panicked: %v", class, kind, trunc([]byte(doc)), r)
+			}
+		}()
+		st.Refresh(context_bg())
+	}()
+	if s.Failed() {
+		return w
 	}
 	for _, n := range declared {
 		h := st.Secret(n)
